@@ -59,6 +59,7 @@ func VerifC16Scan() {
 	minLen := vParam("minlen", 1)
 	links := vParam("links", 2)
 	pad := vParam("pad", 0)
+	up := vParam("up", 0)
 
 	w := vfNewWorld(0, false)
 	vfOpenedDirs = nil
@@ -89,6 +90,7 @@ func VerifC16Scan() {
 			target = string(b) + target
 			vCover("long-target")
 		}
+		target = vc16Frame(up, depth, target)
 		nodes[depth].add(names[i], &vfNode{kind: vfKLink, target: target, fileID: uint64(50 + i)})
 		depths = append(depths, depth)
 		targets = append(targets, target)
